@@ -123,7 +123,8 @@ def run_trees(ctx, cases, d):
 
 
 def gen_tree(rng):
-    names = ['a.txt', 'b.bin', 'sub/c', 'sub/deep/d.dat', 'Sub2/e', 'z', 'sub/a.txt']
+    # incl. names that file managers, version control and editors create or ignore: they are reference files like any other
+    names = ['a.txt', 'b.bin', 'sub/c', 'sub/deep/d.dat', 'Sub2/e', 'z', 'sub/a.txt', 'photos/Thumbs.db', '.DS_Store', 'sub/desktop.ini', 'notes.tmp', '.gitignore', 'b.bin~']
     ref = {}
     for n in rng.sample(names, rng.randint(1, 5)):
         L = rng.choice([0, 1, 2, 5, 9, 30])
